@@ -39,6 +39,17 @@ Init ==
 
 V2 == SetVal(V, mod.n, mod.v)
 
+\* what the attributes of the constructed packet READ as: a described field named by a keyword reads as that value
+\* (the assignment switched the descriptor off), otherwise as what the descriptor computes from the other values
+RootField(n) == dd.prog[dd.root].fields[CHOOSE i \in 1..Len(dd.prog[dd.root].fields) : dd.prog[dd.root].fields[i].name = n]
+VisibleVals ==
+    LET ex == {K[j].n : j \in 1..Len(K)} \cap DescNames(dd.prog, dd.root) IN
+    [i \in 1..Len(V) |->
+        LET f == RootField(V[i].n) IN
+        IF f.k = "Int" /\ f.desc.kind # "none"
+        THEN LET r == DescRead(f, V, ex) IN [n |-> V[i].n, v |-> IF r.ok THEN r.v ELSE [t |-> "other"]]
+        ELSE V[i]]
+
 StepPack1  == /\ phase = "pack" /\ RunningP(p) /\ p' = StepP(dp, p)
               /\ UNCHANGED <<di, dd, dp, K, V, mod, phase, m, p2>>
 StartUnpack == /\ phase = "pack" /\ p.st = "done"
@@ -69,13 +80,10 @@ Inv_C02_Reparse ==
         /\ p.st = "done" /\ m.st = "done"
         /\ m.cur = Len(p.out)
         /\ m.result.vals = V
-\* positioned declarations: whenever pack succeeds on a well-typed assignment, the output re-parses to it
-\* (bytes of one field never land on another field's bytes)
-AllWellTyped == \A i \in 1..Len(dd.prog[dd.root].fields) :
-                    LET f == dd.prog[dd.root].fields[i] IN
-                    f.k \in {"Em", "Move"} \/ WellTyped(dd.prog, f, Lookup(V, f.name))
+\* positioned declarations: whenever pack succeeds on a consistent assignment and the output parses, it parses to that
+\* assignment (bytes of one field never land on another field's bytes)
 Inv_C02_PosReparse ==
-    (Terminal /\ AllWellTyped /\ p.st = "done" /\ m.st = "done") => m.result.vals = V
+    (Terminal /\ Consistent /\ p.st = "done" /\ m.st = "done") => m.result.vals = V
 \* C02 / C19: the bytes are the in-order concatenation of the encodings of the (constructed) values
 Inv_C02_Layout ==
     (Terminal /\ Consistent /\ Plain) => p.out = Layout(dd.prog, dd.root, V)
@@ -93,7 +101,7 @@ Inv_Pack2 ==
         p2.out = Layout(dd.prog, dd.root, V2)
 
 Emit == Terminal =>
-    PrintT(<<"EMIT", ToJson([d |-> di, K |-> K, V |-> V, consistent |-> Consistent, mod |-> mod, eqexp |-> (mod = NoMod \/ V2 = V),
+    PrintT(<<"EMIT", ToJson([d |-> di, K |-> K, V |-> V, Vvis |-> VisibleVals, consistent |-> Consistent, mod |-> mod, eqexp |-> (mod = NoMod \/ V2 = V),
                              p |-> [st |-> p.st, out |-> p.out, err |-> p.err, errv |-> GenErr(dp, p.err, TRUE, p.hookname # ""),
                                     errn |-> GenErr(dp, p.err, FALSE, p.hookname # ""), writes |-> p.writes],
                              u |-> IF m.st = "none" THEN NoMach
